@@ -182,6 +182,8 @@ def failures(gi, diags):
         pline = prim[0]['line_start'] if prim else where
         out.append({'kind': classify(msg), 'message': msg, 'fn': (f[2] or f[1]) if f else None, 'src': f[3] if f else None,
                     'hint': gi.hint_at(pline) if pline else None, 'pline': pline,
+                    # the failed `requires` clause lies in another file (vstd): the precondition of a std function
+                    'clause_ext': any(('failed precondition' in (s2.get('label') or '')) for s2 in ext_spans),
                     'module': gi.module_of(where) if where else '', 'line': where, 'clause_line': clause_line, 'clause': text, 'labels': labs,
                     'rendered': d.get('rendered', ''), 'ext': ['%s:%s' % (s.get('file_name'), s.get('line_start')) for s in ext_spans]})
     return out
